@@ -66,6 +66,14 @@ pub trait Plain {
 	) -> RpcResult<(String, bool, Option<u64>)>;
 	#[method(name = "mapopt", param_kind = map)]
 	fn mapopt(&self, a: u64, b: Option<String>) -> RpcResult<(u64, Option<String>)>;
+	// the optional tail spelled through other paths than the prelude's
+	#[method(name = "optcore")]
+	async fn optcore(&self, a: u64, b: core::option::Option<u64>, c: ::core::option::Option<String>) -> RpcResult<(u64, Option<u64>, Option<String>)>;
+	#[method(name = "optstd")]
+	fn optstd(&self, a: u64, b: std::option::Option<String>) -> RpcResult<(u64, Option<String>)>;
+	// raw identifiers as by-name argument names, without a rename
+	#[method(name = "mapraw", param_kind = map)]
+	async fn mapraw(&self, r#type: String, r#ref: u64) -> RpcResult<(String, u64)>;
 	#[method(name = "camelCaseName")]
 	async fn camel_case(&self, my_arg: String) -> RpcResult<String>;
 	#[method(name = "aliased", aliases = ["aliased_v2", "other.alias"])]
@@ -160,6 +168,18 @@ impl PlainServer for Impl {
 	async fn map3(&self, block_hash: String, include_proof: bool, max_depth: Option<u64>) -> RpcResult<(String, bool, Option<u64>)> {
 		self.rec("map3", json!([block_hash, include_proof, max_depth]));
 		Ok((block_hash, include_proof, max_depth))
+	}
+	async fn optcore(&self, a: u64, b: Option<u64>, c: Option<String>) -> RpcResult<(u64, Option<u64>, Option<String>)> {
+		self.rec("optcore", json!([a, b, c]));
+		Ok((a, b, c))
+	}
+	fn optstd(&self, a: u64, b: Option<String>) -> RpcResult<(u64, Option<String>)> {
+		self.rec("optstd", json!([a, b]));
+		Ok((a, b))
+	}
+	async fn mapraw(&self, r#type: String, r#ref: u64) -> RpcResult<(String, u64)> {
+		self.rec("mapraw", json!([r#type, r#ref]));
+		Ok((r#type, r#ref))
 	}
 	fn mapopt(&self, a: u64, b: Option<String>) -> RpcResult<(u64, Option<String>)> {
 		self.rec("mapopt", json!([a, b]));
@@ -378,7 +398,7 @@ fn collect_items(c: &Ctx<WsClient>, mut sub: Subscription<Item>, n: usize) -> Ve
 
 pub fn check(rep: &Reporter) {
 	rep.set_rule(
-		"a fixed family of #[rpc(client, server)] declarations compiled into the harness (0–4 params; trailing Option ×1 and ×2; Option in the middle; param_kind array/map; #[argument(rename)] to a keyword, to PascalCase, kebab-case and SCREAMING_CASE names; camelCase name; aliases; namespaces with separators `_`, `.`, `/`; sync, async, blocking; RpcResult / Result<_, ErrorObjectOwned> and error returns; subscriptions with params, Option tail, map kind, overridden notification name, aliases) served in memory and called through the generated client stubs over a real WsClient (duplex stream), a real HttpClient (bridged in process to the server's tower service), and both clients built from URLs against Server::start on a loopback socket; full product of per-type argument alphabets per method (u64/i64/u8 boundaries, f64 incl. −0.0 and 1e308, bool, all strings of length ≤ 2 over 12 (thorough 20) symbols with quotes/backslashes/NUL/controls/astral/combining characters; thorough adds a decimal ladder of 1..17 significant digits at 7 magnitudes to the f64 alphabet; vectors, nested struct with enum and map), plus hand-encoded requests for the three spellings of a trailing optional under both encodings, every alias and every namespaced name. Oracle: recorded server arguments == client arguments, client result == server return, subscription items equal and in order.",
+		"a fixed family of #[rpc(client, server)] declarations compiled into the harness (0–4 params; trailing Option ×1 and ×2 (also spelled core::option::Option / std::option::Option); Option in the middle; raw identifiers as by-name argument names; param_kind array/map; #[argument(rename)] to a keyword, to PascalCase, kebab-case and SCREAMING_CASE names; camelCase name; aliases; namespaces with separators `_`, `.`, `/`; sync, async, blocking; RpcResult / Result<_, ErrorObjectOwned> and error returns; subscriptions with params, Option tail, map kind, overridden notification name, aliases) served in memory and called through the generated client stubs over a real WsClient (duplex stream), a real HttpClient (bridged in process to the server's tower service), and both clients built from URLs against Server::start on a loopback socket; full product of per-type argument alphabets per method (u64/i64/u8 boundaries, f64 incl. −0.0 and 1e308, bool, all strings of length ≤ 2 over 12 (thorough 20) symbols with quotes/backslashes/NUL/controls/astral/combining characters; thorough adds a decimal ladder of 1..17 significant digits at 7 magnitudes to the f64 alphabet; vectors, nested struct with enum and map), plus hand-encoded requests for the three spellings of a trailing optional under both encodings, every alias and every namespaced name. Oracle: recorded server arguments == client arguments, client result == server return, subscription items equal and in order.",
 	);
 	rep.assume("the `programs` quantifier is covered over this fixed family of declarations only");
 	let thorough = rep.tier.thorough();
@@ -482,10 +502,13 @@ fn stubs<C: SubscriptionClientT + Sync>(rep: &Reporter, local: &mut Local, c: &C
 			check_call!(rep, local, c, "dot.echo", json!([a, b]), DotClient::echo(&c.client, a, b.clone()), (a, b.clone()));
 			for m in [None, Some(0u64), Some(u64::MAX)] {
 				check_call!(rep, local, c, "opt2", json!([a, m, b]), PlainClient::opt2(&c.client, a, m, b.clone()), (a, m, b.clone()));
+				check_call!(rep, local, c, "optcore", json!([a, m, b]), PlainClient::optcore(&c.client, a, m, b.clone()), (a, m, b.clone()));
 			}
+			check_call!(rep, local, c, "optstd", json!([a, b]), PlainClient::optstd(&c.client, a, b.clone()), (a, b.clone()));
 		}
 		for s in strs.iter().map(|s| s.as_str()) {
 			check_call!(rep, local, c, "map2", json!([a, s]), PlainClient::map2(&c.client, a, s.to_string()), (a, s.to_string()));
+			check_call!(rep, local, c, "mapraw", json!([s, a]), PlainClient::mapraw(&c.client, s.to_string(), a), (s.to_string(), a));
 			for (p, d) in [(false, None), (true, Some(a))] {
 				check_call!(rep, local, c, "map3", json!([s, p, d]), PlainClient::map3(&c.client, s.to_string(), p, d), (s.to_string(), p, d));
 			}
@@ -551,6 +574,12 @@ fn stubs<C: SubscriptionClientT + Sync>(rep: &Reporter, local: &mut Local, c: &C
 	raw_call(rep, local, c, "optional-spelling", "opt2", json!([5]), "opt2", json!([5, null, null]), json!([5, null, null]));
 	raw_call(rep, local, c, "optional-spelling", "opt2", json!([5, 6]), "opt2", json!([5, 6, null]), json!([5, 6, null]));
 	raw_call(rep, local, c, "optional-spelling", "opt2", json!([5, null, "z"]), "opt2", json!([5, null, "z"]), json!([5, null, "z"]));
+	// trailing optionals spelled core::option::Option / std::option::Option: omitted, partly omitted, null
+	raw_call(rep, local, c, "optional-spelling", "optcore", json!([5]), "optcore", json!([5, null, null]), json!([5, null, null]));
+	raw_call(rep, local, c, "optional-spelling", "optcore", json!([5, 6]), "optcore", json!([5, 6, null]), json!([5, 6, null]));
+	raw_call(rep, local, c, "optional-spelling", "optcore", json!([5, null, "z"]), "optcore", json!([5, null, "z"]), json!([5, null, "z"]));
+	raw_call(rep, local, c, "optional-spelling", "optstd", json!([5]), "optstd", json!([5, null]), json!([5, null]));
+	raw_call(rep, local, c, "optional-spelling", "optstd", json!([5, null]), "optstd", json!([5, null]), json!([5, null]));
 	raw_call(rep, local, c, "rename", "map2", json!({"first": 3, "type": "t"}), "map2", json!([3, "t"]), json!([3, "t"]));
 	raw_call(rep, local, c, "rename", "map3", json!({"BlockHash": "0x1", "include-proof": true, "MAX_DEPTH": 9}), "map3", json!(["0x1", true, 9]), json!(["0x1", true, 9]));
 	raw_call(rep, local, c, "rename", "map3", json!({"include-proof": false, "BlockHash": "h"}), "map3", json!(["h", false, null]), json!(["h", false, null]));
